@@ -276,6 +276,146 @@ Corollary defined_c_day1_dead par crops season tsc w (s : DState R) :
 Proof. intros Hok Eoff Hd. unfold defined_c. rewrite day_proc_opt_day1_dead_concrete by assumption. reflexivity. Qed.
 
 (* ============================================================================================================ *)
+(*  Part D  with a water table the carried adjusted field capacity is dead on EVERY day                            *)
+(* ============================================================================================================ *)
+(* [proj] does not blank th_fc_Adj: without a water table check_groundwater_table returns the array it was handed.  With a
+   water table (water_table = 1) it recomputes the array from the day's depth before anything reads it. *)
+Definition set_fc (s : DState R) (f : list R) : DState R :=
+  {| d_age_days := d_age_days s; d_age_days_ns := d_age_days_ns s; d_aer_days := d_aer_days s; 
+     d_aer_days_comp := d_aer_days_comp s; d_irr_cum := d_irr_cum s; d_delayed_gdds := d_delayed_gdds s; 
+     d_delayed_cds := d_delayed_cds s; d_pct_lag_phase := d_pct_lag_phase s; d_t_early_sen := d_t_early_sen s; 
+     d_gdd_cum := d_gdd_cum s; d_day_submerged := d_day_submerged s; d_irr_net_cum := d_irr_net_cum s; d_e_pot := d_e_pot s; 
+     d_t_pot := d_t_pot s; d_pre_adj := d_pre_adj s; d_crop_dead := d_crop_dead s; d_germination := d_germination s; 
+     d_premat_senes := d_premat_senes s; d_growing_season := d_growing_season s; d_yield_form := d_yield_form s; 
+     d_stage2 := d_stage2 s; d_wt_in_soil := d_wt_in_soil s; d_stage := d_stage s; d_f_pre := d_f_pre s; d_f_post := d_f_post s; 
+     d_fpost_dwn := d_fpost_dwn s; d_fpost_upp := d_fpost_upp s; d_h1_cor_asum := d_h1_cor_asum s; 
+     d_h1_cor_bsum := d_h1_cor_bsum s; d_f_pol := d_f_pol s; d_s_cor1 := d_s_cor1 s; d_s_cor2 := d_s_cor2 s; 
+     d_hi_ref := d_hi_ref s; d_HIfinal := d_HIfinal s; d_growth_stage := d_growth_stage s; d_tr_ratio := d_tr_ratio s; 
+     d_r_cor := d_r_cor s; d_canopy_cover := d_canopy_cover s; d_canopy_cover_adj := d_canopy_cover_adj s; 
+     d_canopy_cover_ns := d_canopy_cover_ns s; d_canopy_cover_adj_ns := d_canopy_cover_adj_ns s; d_biomass := d_biomass s; 
+     d_biomass_ns := d_biomass_ns s; d_YieldPot := d_YieldPot s; d_harvest_index := d_harvest_index s; 
+     d_harvest_index_adj := d_harvest_index_adj s; d_ccx_act := d_ccx_act s; d_ccx_act_ns := d_ccx_act_ns s; d_ccx_w := d_ccx_w s; 
+     d_ccx_w_ns := d_ccx_w_ns s; d_ccx_early_sen := d_ccx_early_sen s; d_cc_prev := d_cc_prev s; 
+     d_protected_seed := d_protected_seed s; d_DryYield := d_DryYield s; d_FreshYield := d_FreshYield s; d_z_root := d_z_root s; 
+     d_cc0_adj := d_cc0_adj s; d_surface_storage := d_surface_storage s; d_z_gw := d_z_gw s; d_th_fc_Adj := f; d_th := d_th s; 
+     d_thini := d_thini s; d_time_step_counter := d_time_step_counter s; d_precipitation := d_precipitation s; 
+     d_temp_max := d_temp_max s; d_temp_min := d_temp_min s; d_et0 := d_et0 s; d_sumET0EarlySen := d_sumET0EarlySen s; 
+     d_gdd := d_gdd s; d_w_surf := d_w_surf s; d_evap_z := d_evap_z s; d_w_stage_2 := d_w_stage_2 s; d_depletion := d_depletion s; 
+     d_taw := d_taw s |}.
+Definition gw_with_fc (a : A_gw R) (f : list R) : A_gw R :=
+  {| gwA_zgw := gwA_zgw a; gwA_th := gwA_th a; gwA_fcadj := f; gwA_wt := gwA_wt a; gwA_gw := gwA_gw a |}.
+(* the dead fields at a season start when there is a water table *)
+Definition proj_fc (s : DState R) : DState R := set_fc (proj s) [].
+
+Lemma c_gw_ignores_fcadj p a f : gwA_wt a = 1%Z -> c_gw p (gw_with_fc a f) = c_gw p a.
+Proof.
+  intros H. unfold c_gw. cbn [gw_with_fc gwA_zgw gwA_th gwA_fcadj gwA_wt gwA_gw]. rewrite H.
+  unfold Groundwater.check_groundwater_table. cbn [Z.eqb Pos.eqb]. reflexivity.
+Qed.
+
+(* processes that never raise, as optional processes *)
+Definition lift (P : Procs R) : ProcsO R :=
+  {| po_gd := fun a => Some (p_gd P a); po_gw := fun p a => Some (p_gw P p a); po_rd := fun p a => Some (p_rd P p a);
+     po_pi := fun p a => Some (p_pi P p a); po_dr := fun p a => Some (p_dr P p a); po_rp := fun p a => Some (p_rp P p a);
+     po_ir := fun p a => Some (p_ir P p a); po_inf := fun p a => Some (p_inf P p a); po_cr := fun p a => Some (p_cr P p a);
+     po_ge := fun p a => Some (p_ge P p a); po_gst := fun a => Some (p_gst P a); po_cc := fun p a => Some (p_cc P p a);
+     po_ev := fun p a => Some (p_ev P p a); po_tr := fun p a => Some (p_tr P p a); po_gi := fun p a => Some (p_gi P p a);
+     po_hr := fun a => Some (p_hr P a); po_bm := fun a => Some (p_bm P a); po_hi := fun p a => Some (p_hi P p a);
+     po_rz := fun p a => Some (p_rz P p a) |}.
+Lemma total_lift (P : Procs R) : total (lift P) = P.
+Proof. destruct P. reflexivity. Qed.
+Lemma results_opt_lift x (P : Procs R) : exists Rs, results_opt x (lift P) = Some Rs /\ results x P = Rs.
+Proof.
+  assert (H : exists Rs, results_opt x (lift P) = Some Rs).
+  { unfold results_opt, obind. cbv zeta. cbn [lift po_gd po_gw po_rd po_pi po_dr po_rp po_ir po_inf po_cr po_ge po_gst po_cc po_ev po_tr
+                                               po_gi po_hr po_bm po_hi po_rz].
+    destruct (x_gs x); eexists; reflexivity. }
+  destruct H as [Rs H]. exists Rs. split; [exact H|]. rewrite <- (total_lift P) at 1. exact (results_opt_total _ _ _ H).
+Qed.
+
+Section FcDead.
+  Variables (par : DPar R) (PO : ProcsO R).
+  Let prof := so_prof (p_soil par).
+  Hypothesis Hwt : p_water_table par = 1%Z.
+  Hypothesis gw_ignores_fcadj_o : forall a f, gwA_wt a = 1%Z -> po_gw PO prof (gw_with_fc a f) = po_gw PO prof a.
+
+  Theorem results_opt_fc_dead season gs dap tsc w (s : DState R) f :
+    results_opt (ctx par season gs dap tsc w (set_fc s f)) PO = results_opt (ctx par season gs dap tsc w s) PO.
+  Proof.
+    unfold results_opt. cbv zeta.
+    set (x := ctx par season gs dap tsc w s). set (x' := ctx par season gs dap tsc w (set_fc s f)).
+    apply obind_ext; [reflexivity|]. intros gdd _.
+    apply obind_ext; [change (arg_gw x') with (gw_with_fc (arg_gw x) f); apply gw_ignores_fcadj_o; exact Hwt|]. intros r_gw _.
+    apply obind_ext; [reflexivity|]. intros r_rd _.
+    apply obind_ext; [reflexivity|]. intros r_pi _.
+    apply obind_ext; [reflexivity|]. intros r_dr _.
+    apply obind_ext; [reflexivity|]. intros r_rp _.
+    apply obind_ext; [reflexivity|]. intros r_ir _.
+    apply obind_ext; [reflexivity|]. intros r_inf _.
+    apply obind_ext; [reflexivity|]. intros r_cr _.
+    apply obind_ext; [reflexivity|]. intros r_ge _.
+    apply obind_ext; [reflexivity|]. intros r_gst _.
+    apply obind_ext; [reflexivity|]. intros r_cc _.
+    apply obind_ext; [reflexivity|]. intros r_ev _.
+    apply obind_ext; [reflexivity|]. intros r_tr _.
+    apply obind_ext; [reflexivity|]. intros r_gi _.
+    apply obind_ext; [reflexivity|]. intros r_hr _.
+    apply obind_ext; [reflexivity|]. intros r_bm _.
+    apply obind_ext; [reflexivity|]. intros r_hi _.
+    apply obind_ext; [reflexivity|]. intros r_rz _.
+    reflexivity.
+  Qed.
+
+  Theorem day_proc_opt_fc_dead season gs dap tsc w (s : DState R) f :
+    day_proc_opt par PO season gs dap tsc w (set_fc s f) = day_proc_opt par PO season gs dap tsc w s.
+  Proof.
+    unfold day_proc_opt, day_core_opt. cbv zeta.
+    change (mk_ctx par season gs dap tsc w (set_fc s f)) with (ctx par season gs dap tsc w (set_fc s f)).
+    change (mk_ctx par season gs dap tsc w s) with (ctx par season gs dap tsc w s).
+    rewrite (results_opt_fc_dead season gs dap tsc w s f).
+    destruct (results_opt (ctx par season gs dap tsc w s) PO) as [Rs|]; reflexivity.
+  Qed.
+End FcDead.
+
+(* the same for processes that never raise (Day.v's [day_proc]) *)
+Theorem day_proc_fc_dead par (P : Procs R) season gs dap tsc w (s : DState R) f :
+  p_water_table par = 1%Z ->
+  (forall a f, gwA_wt a = 1%Z -> p_gw P (so_prof (p_soil par)) (gw_with_fc a f) = p_gw P (so_prof (p_soil par)) a) ->
+  day_proc par P season gs dap tsc w (set_fc s f) = day_proc par P season gs dap tsc w s.
+Proof.
+  intros Hwt Hgw. rewrite !day_proc_out.
+  destruct (results_opt_lift (ctx par season gs dap tsc w (set_fc s f)) P) as (R1 & E1 & ->).
+  destruct (results_opt_lift (ctx par season gs dap tsc w s) P) as (R2 & E2 & ->).
+  rewrite (results_opt_fc_dead par (lift P) Hwt) in E1 by (intros a f0 Ha; cbn [lift po_gw]; rewrite Hgw by exact Ha; reflexivity).
+  rewrite E2 in E1. injection E1 as <-. reflexivity.
+Qed.
+
+Theorem day_proc_fc_dead_concrete par crops season gs dap tsc w (s : DState R) f : p_water_table par = 1%Z ->
+  day_proc par (total (procs_concrete crops)) season gs dap tsc w (set_fc s f) = day_proc par (total (procs_concrete crops)) season gs dap tsc w s.
+Proof.
+  intros Hwt. apply day_proc_fc_dead; [exact Hwt|]. intros a f0 Ha. cbn [total p_gw procs_concrete po_gw].
+  rewrite c_gw_ignores_fcadj by exact Ha. reflexivity.
+Qed.
+
+Theorem defined_c_fc_dead par crops season gs dap tsc w (s : DState R) f : p_water_table par = 1%Z ->
+  defined_c par crops season gs dap tsc w (set_fc s f) = defined_c par crops season gs dap tsc w s.
+Proof.
+  intros Hwt. unfold defined_c. rewrite (day_proc_opt_fc_dead par (procs_concrete crops) Hwt); [reflexivity|].
+  intros a f0 Ha. cbn [procs_concrete po_gw]. apply c_gw_ignores_fcadj. exact Ha.
+Qed.
+
+(* first day of a season, water table: the 19 fields of [proj_list] AND th_fc_Adj are dead *)
+Theorem day1_dead_concrete_table par crops season tsc w (s : DState R) :
+  hi_crops_ok crops -> p_sim_off par = false -> p_water_table par = 1%Z -> (0 <= d_delayed_cds s)%Z ->
+  day_proc par (total (procs_concrete crops)) season true 1 tsc w (proj_fc s) = day_proc par (total (procs_concrete crops)) season true 1 tsc w s /\
+  defined_c par crops season true 1 tsc w (proj_fc s) = defined_c par crops season true 1 tsc w s.
+Proof.
+  intros Hok Eoff Hwt Hd. unfold proj_fc. split.
+  - rewrite day_proc_fc_dead_concrete by exact Hwt. apply day1_dead_concrete; assumption.
+  - rewrite defined_c_fc_dead by exact Hwt. apply defined_c_day1_dead; assumption.
+Qed.
+
+(* ============================================================================================================ *)
 (*  Examples: the premises are satisfiable                                                                        *)
 (* ============================================================================================================ *)
 Example hi_crops_ok_example : hi_crops_ok DaySideP.Ex.crops.
@@ -301,4 +441,7 @@ Print Assumptions day1_dead_after_reset.
 Print Assumptions results_opt_day1_dead.
 Print Assumptions day_proc_opt_day1_dead_concrete.
 Print Assumptions defined_c_day1_dead.
+Print Assumptions day_proc_fc_dead_concrete.
+Print Assumptions defined_c_fc_dead.
+Print Assumptions day1_dead_concrete_table.
 Print Assumptions day1_dead_concrete_example.
